@@ -181,11 +181,11 @@ def run(ck):
     tu = cast.load(ck.repo, VMC)
     PR, PW = tu.macro_int("PAGE_READ"), tu.macro_int("PAGE_WRITE")
     ck.rule("R1", "every use of a page's host buffer is preceded by a NULL test and (emulated access) the permission test "
-                  "of that same page pointer on every path since it was looked up", floor=8)
-    ck.rule("R2", "no store into page memory is followed by a fallible step of the same emulated write", floor=2)
-    ck.rule("R3", "a new mapping is tested for overlap and refused before insertion; two-sided interval predicate", floor=3)
-    ck.rule("R4", "typed primitives record width/8 bytes at the accessed address before touching memory", floor=8)
-    ck.rule("R5", "memory breakpoints are matched by interval overlap against recorded reads and writes", floor=2)
+                  "of that same page pointer on every path since it was looked up", floor=5)
+    ck.rule("R2", "no store into page memory is followed by a fallible step of the same emulated write", floor=1)
+    ck.rule("R3", "a new mapping is tested for overlap and refused before insertion; two-sided interval predicate", floor=1)
+    ck.rule("R4", "typed primitives record width/8 bytes at the accessed address before touching memory", floor=4)
+    ck.rule("R5", "memory breakpoints are matched by interval overlap against recorded reads and writes", floor=1)
     _access_log_rules(ck, tu)
 
     reads = sorted(n for n in tu.funcs if re.match(r"vm_MEM_LOOKUP_\d+$", n))
@@ -322,9 +322,9 @@ def _access_log_rules(ck, tu):
       entry.start = addr1  only where entry.start == addr2 is known,   new bound is a max/min with the old one;
     every path records the range (extension or memory_access_list_add(access, addr1, addr2)); add_mem_read/add_mem_write pass
     (addr, addr + size) to the list of their own kind."""
-    ck.rule("R7", "a typed access through the page pointer lies inside the page (linear bound on offset + width/8)", floor=2)
+    ck.rule("R7", "a typed access through the page pointer lies inside the page (linear bound on offset + width/8)", floor=1)
     typed_access_bound_rules(ck, tu, "R7")
-    ck.rule("R6", "the access log never loses bytes: entries are extended only by exact concatenation (or max/min), every path records the range", floor=3)
+    ck.rule("R6", "the access log never loses bytes: entries are extended only by exact concatenation (or max/min), every path records the range", floor=2)
     f = tu.func("add_range_to_list")
     ck.need(f is not None and len(f.params) == 3, "add_range_to_list(access, addr1, addr2) not found")
     a1, a2 = f.params[1]["name"], f.params[2]["name"]
